@@ -394,6 +394,47 @@ class PteraTransformer(NodeTransformer):
         ):
             slc = target.slice
             slc = slc.value if isinstance(target.slice, ast.Index) else slc
+            if (
+                value is not None
+                and not expression
+                and self.should_instrument(target.value.id, ann)
+            ):
+                # Evaluate the value, then the index, exactly once each (in
+                # Python's order), and reuse the results for both the Key and
+                # the actual store.
+                val_sym, idx_sym = _gensym(), _gensym()
+                new_value = self._interact(
+                    target.value.id,
+                    self._wrap_call(
+                        "__ptera_Key",
+                        "index",
+                        ast.Name(id=idx_sym, ctx=ast.Load()),
+                    ),
+                    ann_arg,
+                    ast.Name(id=val_sym, ctx=ast.Load()),
+                    True,
+                )
+                stmts = [
+                    ast.Assign(
+                        targets=[ast.Name(id=val_sym, ctx=ast.Store())],
+                        value=value,
+                    ),
+                    ast.Assign(
+                        targets=[ast.Name(id=idx_sym, ctx=ast.Store())],
+                        value=slc,
+                    ),
+                    ast.Assign(
+                        targets=[
+                            ast.Subscript(
+                                value=target.value,
+                                slice=ast.Name(id=idx_sym, ctx=ast.Load()),
+                                ctx=ast.Store(),
+                            )
+                        ],
+                        value=new_value,
+                    ),
+                ]
+                return [ast.copy_location(stmt, orig) for stmt in stmts]
             value_args = [
                 target.value.id,
                 self._wrap_call("__ptera_Key", "index", deepcopy(slc)),
